@@ -240,7 +240,8 @@ class UnitaryMatrix(Unitary, StateVectorMap, NDArrayOperatorsMixin):
             are equal up to global phase and 1 means the two unitaries are
             very unsimilar or far apart.
         """
-        other = UnitaryMatrix(other, check_arguments=False)
+        if not isinstance(other, UnitaryMatrix):
+            other = UnitaryMatrix(other, self.radixes, False)
         num = np.abs(np.trace(self.conj().T @ other))
         dem = self.dim
         frac = min(num / dem, 1)
@@ -281,7 +282,13 @@ class UnitaryMatrix(Unitary, StateVectorMap, NDArrayOperatorsMixin):
         if not StateVector.is_pure_state(in_state):
             raise TypeError(f'Expected StateVector, got {type(in_state)}.')
 
-        in_state = StateVector(in_state)
+        if not isinstance(in_state, StateVector):
+            if len(in_state) != self.dim:
+                raise ValueError(
+                    'State unitary dimension mismatch; '
+                    f'expected {self.dim}, got {len(in_state)}.',
+                )
+            in_state = StateVector(in_state, self.radixes)
 
         if in_state.dim != self.dim:
             raise ValueError(
